@@ -297,7 +297,7 @@ def run_job(ctx, job):
     else:
         @st.composite
         def cases(draw):
-            t = draw(st.one_of(C.structtags(), st.integers(1, 90).map(lambda n: T("fixedstr", size=n))))
+            t = draw(st.one_of(C.structtags(), st.integers(1, 90).map(lambda n: T("fixedstr", size=n)), C.fixedstr_padded()))
             if t["k"] == "structtag":
                 v = draw(C.structtag_values(t))
                 mem = draw(st.binary(min_size=t["size"], max_size=t["size"]))
